@@ -1,7 +1,7 @@
 ---------------------------- MODULE Trace_TreeDec ----------------------------
 (* Batch judge for C10: one case = one graph with the observed results of    *)
 (* tree_decomposition (3 methods), min_fill, minor_min_width, quickbb.       *)
-EXTENDS TreeDec
+EXTENDS MinFill
 VARIABLE tid
 Cases == JsonDeserialize("cases.json")
 Init == tid \in 1..Len(Cases)
@@ -32,5 +32,8 @@ Verdict(c) ==
      ELSE [v |-> "ok", tags |-> <<>>]
 
 Judge == LET c == Cases[tid] r == Verdict(c) IN
-         PrintT(ToJson([gtid |-> c.gtid, v |-> r.v, tags |-> r.tags, tw |-> TdTreewidth(c.g)]))
+         \* mfdrift: first step of the returned min_fill order that does not eliminate a vertex of minimal fill-in
+         \* (0 = the order is a behaviour of the MinFill machine); descriptive, never a verdict
+         PrintT(ToJson([gtid |-> c.gtid, v |-> r.v, tags |-> r.tags, tw |-> TdTreewidth(c.g),
+                        mfdrift |-> IF c.mf.out = "ok" /\ TdIsPermutation(c.g, c.mf.order) THEN MfFirstNonGreedy(c.g, c.mf.order) ELSE 0]))
 =============================================================================
